@@ -52,6 +52,7 @@ static void scan_json(ldb_t *db, FILE *o) {
   for (ldb_iter_first(it); ldb_iter_valid(it); ldb_iter_next(it)) {
     ldb_slice_t k = ldb_iter_key(it), v = ldb_iter_value(it); const unsigned char *kp = k.data; int id = d_valid(v.data, v.size);
     if (k.size == 6 && kp[0] == 'm') { char t[8]; int b; memcpy(t, kp + 1, 5); t[5] = 0; b = atoi(t); if (id != b * 8 + 7) bad++; if (nm < 100000) markers[nm++] = b; }
+    else if (k.size > 100 && kp[0] == 'Z') { /* long keys of the big-edit follow-up: not part of the compared state */ }
     else if (k.size == 3 && kp[0] == 'x') { char t[4]; memcpy(t, kp + 1, 2); t[2] = 0; if (ndv < NDK) { dk[ndv] = atoi(t); dv[ndv] = id; ndv++; } if (id < 0) bad++; }
     else bad++;
     nd++;
@@ -200,10 +201,22 @@ static int cmd_recover(int argc, char **argv) {
         sprintf(kb, "m%05d", b); k = ldb_string(kb); val = d_mkval(b * 8 + 7, 6); v = ldb_slice(val, 6); ldb_batch_put(wb, &k, &v); free(val);
         for (j = 0; j < NDK; j++) { k = ldb_string(dkeys[j]); val = d_mkval(b * 16 + j, 9); v = ldb_slice(val, 9); ldb_batch_put(wb, &k, &v); free(val); p += sprintf(desc + p, "%s%d:%d", j ? "," : "", j, b * 16 + j); }
       } else wb = make_batch(b, desc, 3, 1);
-      r = ldb_write(db, wb, NULL);
+      { ldb_writeopt_t fwo = *ldb_writeopt_default; fwo.sync = getenv("CRASH_FOLLOW_SYNC") != NULL;   /* C02: the follow-up writes are synced writes */
+        r = ldb_write(db, wb, &fwo); }
       ldb_batch_destroy(wb); if (r != 0) wrc = r;
       if (b == follow + 2 && follow % 2 == 0) { r = ldb_test_compact_memtable(db); if (r != 0) wrc = r; } /* even base: forces a MANIFEST edit after recovery; odd base: everything stays in the log */
       fprintf(o, "%s[%d,\"%s\"]", b > follow ? "," : "", b, desc);
+    }
+    if (follow % 4 == 2) {
+      /* big version edits: 3000-byte keys make every flush append kilobytes to the MANIFEST, so that a reused MANIFEST grows past
+         a 32 KiB log block while this incarnation runs */
+      int rnd;
+      for (rnd = 0; rnd < 16; rnd++) {
+        char *kb = malloc(3001); ldb_slice_t k, v; int r, j;
+        for (j = 0; j < 2; j++) { memset(kb, 'Z', 3000); sprintf(kb + 1, "%03d%d", rnd, j); kb[6] = 'Z'; k = ldb_slice(kb, 3000); v = ldb_string("big"); r = ldb_put(db, &k, &v, NULL); if (r != 0) wrc = r; }
+        free(kb);
+        r = ldb_test_compact_memtable(db); if (r != 0) wrc = r;
+      }
     }
     fprintf(o, "],\"wrc\":%d,", wrc);
     scan_json(db, o);
